@@ -164,7 +164,7 @@ func (e *compatibilityEngine) NewInstantQuery(q storage.Queryable, opts *promql.
 	exec, err := execution.New(lplan.Expr(), q, ts, ts, 0, e.getLookbackDelta(opts))
 	if e.triggerFallback(err) {
 		e.queries.WithLabelValues("true").Inc()
-		return e.prom.NewInstantQuery(q, opts, qs, ts)
+		return e.newFallbackQuery(e.prom.NewInstantQuery(q, opts, qs, ts))
 	}
 	e.queries.WithLabelValues("false").Inc()
 	if err != nil {
@@ -201,7 +201,7 @@ func (e *compatibilityEngine) NewRangeQuery(q storage.Queryable, opts *promql.Qu
 	exec, err := execution.New(lplan.Expr(), q, start, end, step, e.getLookbackDelta(opts))
 	if e.triggerFallback(err) {
 		e.queries.WithLabelValues("true").Inc()
-		return e.prom.NewRangeQuery(q, opts, qs, start, end, step)
+		return e.newFallbackQuery(e.prom.NewRangeQuery(q, opts, qs, start, end, step))
 	}
 	e.queries.WithLabelValues("false").Inc()
 	if err != nil {
@@ -218,6 +218,30 @@ func (e *compatibilityEngine) NewRangeQuery(q storage.Queryable, opts *promql.Qu
 		expr:   expr,
 		t:      RangeQuery,
 	}, nil
+}
+
+// fallbackQuery is a query which the Prometheus engine evaluates on behalf of
+// this engine. The Prometheus engine only recovers panics raised during the
+// evaluation itself, not those raised while it opens queriers and selects
+// series, so they are turned into the error of the query here.
+type fallbackQuery struct {
+	promql.Query
+}
+
+func (e *compatibilityEngine) newFallbackQuery(q promql.Query, err error) (promql.Query, error) {
+	if err != nil {
+		return nil, err
+	}
+	return &fallbackQuery{Query: q}, nil
+}
+
+func (q *fallbackQuery) Exec(ctx context.Context) (ret *promql.Result) {
+	defer func() {
+		if r := recover(); r != nil {
+			ret = &promql.Result{Err: errors.Newf("unexpected error: %v", r)}
+		}
+	}()
+	return q.Query.Exec(ctx)
 }
 
 type Query struct {
